@@ -121,7 +121,24 @@ def rule_construction(rep, pdb):
     fn = pdb.fn("%s::new_nonzero" % S)
     rule = "new_nonzero(rows, cols, nnz) allocates len(val) = len(row_index) = nnz and len(col_start) = cols + 1"
     if fn is None:
-        rep.missing("lengths/new_nonzero", rule, "not found")
+        # the private allocator written out at its only caller: the same obligation on the struct literal in transpose (checked there as well)
+        tp_ = pdb.fn("%s::transpose" % S)
+        lit_ = None
+        if tp_ is not None:
+            c_ = Ctx.for_fn(pdb, tp_)
+            for st_ in tp_["body"].get("stmts", []):
+                if st_.get("k") == "Let" and st_.get("init") is not None:
+                    t_ = c_.term(st_["init"])
+                    if t_[0] == "struct" and str(t_[1]).endswith("Sparse"):
+                        lit_ = dict((f_[0], f_[1]) for f_ in t_[2:])
+                        break
+        def _fe(t, n_):
+            return t is not None and t[0] == "call" and str(t[1]).endswith("from_elem") and t[3] == n_
+        if lit_ is None:
+            rep.missing("lengths/new_nonzero", rule, "not found")
+        else:
+            okl_ = _fe(lit_.get("val"), lit_.get("nonzero")) and _fe(lit_.get("row_index"), lit_.get("nonzero")) and _fe(lit_.get("col_start"), lin_add(lit_.get("cols"), num(1)))
+            rep.add("lengths/new_nonzero", rule, okl_, tp_["body"], "written out in transpose", where=loc(tp_["body"]))
     else:
         summ = ctor_summary(pdb, fn)
 
@@ -457,6 +474,12 @@ def check_transpose(rep, pdb, walks, key):
     ab = ctx.binds.get(at[1]) if at is not None and at[0] == "var" else None
     ai = ctx.term(ab.init) if ab is not None and ab.init is not None else None
     alloc = ai is not None and ai == ("call", "%s::new_nonzero" % S, COLS, ROWS, NNZ)
+    if not alloc and ai is not None and ai[0] == "struct" and str(ai[1]).endswith("Sparse"):
+        # new_nonzero(cols, rows, nnz) written out: the transposed shape, nnz zero values / row indices, rows + 1 zero column starts
+        lf = dict((f_[0], f_[1]) for f_ in ai[2:])
+        fe = lambda t, z, n_: t is not None and t[0] == "call" and str(t[1]).endswith("from_elem") and len(t) == 4 and (is_zero_term(t[2]) if z else t[2] == num(0)) and t[3] == n_
+        alloc = lf.get("rows") == COLS and lf.get("cols") == ROWS and lf.get("nonzero") == NNZ and fe(lf.get("val"), True, NNZ) and fe(lf.get("row_index"), False, NNZ) and \
+            fe(lf.get("col_start"), False, lin_add(ROWS, num(1)))
     rets = [x for x in walk(fn["body"]) if x.get("k") == "Ret"]
     ok = alloc and len(walks["transpose"]) == 4 and not rets
     if rets:
